@@ -44,6 +44,17 @@ func TestC16ModeR(t *testing.T) {
 	r.Done()
 }
 
+// c16AESpelling spells "gzip, br" in one of 200 equivalent ways.
+func c16AESpelling(lr *rand.Rand) string {
+	q := []string{"", ";q=1", ";q=1.0", ";q=1.00", ";q=1.000"}
+	sep := []string{",", ", ", " , ", ",  "}
+	a, b := "gzip"+q[lr.IntN(5)], "br"+q[lr.IntN(5)]
+	if lr.IntN(2) == 0 {
+		a, b = b, a
+	}
+	return a + sep[lr.IntN(4)] + b
+}
+
 func c16Run(r *run.Runner, c map[string]any) {
 	ng, per, backend, seed := c["goroutines"].(int), c["requests_each"].(int), c["backend"].(string), c["seed"].(uint64)
 	var inner driver.Conn = memcache.Open()
@@ -68,10 +79,10 @@ func c16Run(r *run.Runner, c map[string]any) {
 		// content changes every 5 virtual seconds
 		etag := fmt.Sprintf(`"%s-%d"`, res, int(time.Since(epoch0)/(5*time.Second)))
 		if inm := req.Header.Get("If-None-Match"); inm != "" && inm == etag {
-			return Render(&RespSpec{Status: 304, ETag: etag, Vary: []string{"X-A"}, Extra: map[string][]string{"X-Res": {res}}}, uc.Enter, uc.Serial)
+			return Render(&RespSpec{Status: 304, ETag: etag, Vary: []string{"X-A, Accept-Encoding"}, Extra: map[string][]string{"X-Res": {res}}}, uc.Enter, uc.Serial)
 		}
 		etagOf.Store(uc.Serial, etag) // the validator this body was sent with
-		rs := RespSpec{Status: 200, CC: []string{"max-age=1, stale-while-revalidate=3"}, ETag: etag, Vary: []string{"X-A"}, BodySize: 200 + len(res)*7,
+		rs := RespSpec{Status: 200, CC: []string{"max-age=1, stale-while-revalidate=3"}, ETag: etag, Vary: []string{"X-A, Accept-Encoding"}, BodySize: 200 + len(res)*7,
 			Extra: map[string][]string{"X-Res": {res}}}
 		if strings.HasSuffix(req.URL.Path, "1") {
 			rs.DelayS = 0.2
@@ -105,6 +116,10 @@ func c16Run(r *run.Runner, c map[string]any) {
 				ex := &sim.Exchange{ID: g*100000 + i}
 				req, _ := http.NewRequestWithContext(sim.WithExchange(context.Background(), ex), method, "http://a.example"+path, nil)
 				req.Header.Set("X-A", xa)
+				// one Accept-Encoding variant in 200 spellings the cache documents as
+				// equivalent (member order, q=1 forms, white space): whatever the cache
+				// keeps per raw header value is written to from many goroutines at once
+				req.Header.Set("Accept-Encoding", c16AESpelling(lr))
 				if lr.IntN(20) == 0 {
 					req.Header.Set("Cache-Control", "no-cache")
 				}
